@@ -1,6 +1,6 @@
 import Driver.Proto
 import ScrapliModel.Netconf.Decode
-namespace Driver
+namespace Driver.C02
 open Scrapli Scrapli.Netconf
 
 def markers : List Bytes := Gen.Response.netconfFailedWhenContains
@@ -47,4 +47,4 @@ def handleC02 : List String → String
     | _, _ => "bad-op"
   | _ => "bad-op"
 
-end Driver
+end Driver.C02
